@@ -18,6 +18,7 @@ import (
 	"github.com/tsawler/tabula"
 	"github.com/tsawler/tabula/reader"
 	"github.com/tsawler/tabula/zzharness/docpool"
+	"github.com/tsawler/tabula/zzharness/officew"
 	"github.com/tsawler/tabula/zzharness/pdfw"
 	"github.com/tsawler/tabula/zzharness/sim"
 	"github.com/tsawler/tabula/zzsimrt"
@@ -39,7 +40,7 @@ type Fault struct {
 
 type Spec struct {
 	Doc    pdfw.DocSpec `json:"doc"`
-	Other  string       `json:"other,omitempty"` // "" = PDF; "html": single-page HTML file (handle part only)
+	Other  string       `json:"other,omitempty"` // "" = PDF; html docx odt xlsx pptx epub: handle / ledger part only
 	Prog   []Call       `json:"prog"`
 	Fault  Fault        `json:"fault"`
 	OtherSeed uint64    `json:"other_seed,omitempty"`
@@ -74,8 +75,8 @@ func (p *Prop) Generate(base uint64, index int, env *sim.Env) *sim.Case {
 	r := sim.NewRand(seed)
 	sp := Spec{Doc: simpleDoc(r.Split("doc"))}
 	c := &sim.Case{Prop: "C10", Seed: seed, Index: index, Mode: "fault-free"}
-	if r.Pct(12) {
-		sp.Other = "html"
+	if r.Pct(25) {
+		sp.Other = sim.Pick(r, []string{"html", "docx", "odt", "xlsx", "pptx", "epub"})
 		sp.OtherSeed = r.Uint64()
 	}
 	if r.Pct(25) {
@@ -284,14 +285,13 @@ func (p *Prop) Execute(c *sim.Case, env *sim.Env) *sim.Result {
 
 	var data []byte
 	ext := ".pdf"
+	if sp.Other != "" {
+		ext = "." + sp.Other
+	}
 	if img, ok := c.Images["file"]; ok {
 		data = img
-		if sp.Other == "html" {
-			ext = ".html"
-		}
-	} else if sp.Other == "html" {
-		data = []byte(docpool.SmallHTML(sim.NewRand(sp.OtherSeed)))
-		ext = ".html"
+	} else if sp.Other != "" {
+		data = otherDoc(sp.Other, sp.OtherSeed)
 	} else {
 		data = pdfw.Generate(sp.Doc).Built.Bytes
 	}
@@ -336,7 +336,7 @@ func (p *Prop) Execute(c *sim.Case, env *sim.Env) *sim.Result {
 	}
 	rn := &runner{t: t, path: pristine, count: sp.Doc.Pages, refs: map[string]string{}, refErr: map[string]bool{}}
 	if !isPDF {
-		rn.count = 1
+		rn.count = -1 // the page count of other formats is not modelled (sheets, slides, chapters)
 	}
 
 	var handles []*tabula.Extractor
@@ -491,10 +491,10 @@ func (p *Prop) Execute(c *sim.Case, env *sim.Env) *sim.Result {
 				if !m.fromReader && keepsFileOpen {
 					m.holdsFD = true // non-terminal operations keep the reader open
 				}
-				if cl.Op == "count" && !faulted && n != rn.count {
+				if cl.Op == "count" && !faulted && rn.count >= 0 && n != rn.count {
 					fail("count:wrong", fmt.Sprintf("%s: PageCount %d, the document has %d pages", where, n, rn.count))
 				}
-			} else if !faulted && isPDF {
+			} else if !faulted && (isPDF || cl.Op == "count") {
 				fail(cl.Op+":error", fmt.Sprintf("%s: failed on an undamaged document: %s", where, oc.Msg))
 			} else if oc.Kind == "error" && !m.fromReader && !m.holdsFD {
 				// a failed open leaves nothing open; a failure after opening leaves the reader open until Close
@@ -823,14 +823,31 @@ func (p *Prop) Shrink(c *sim.Case) []*sim.Case {
 	return out
 }
 
+func otherDoc(kind string, seed uint64) []byte {
+	r := sim.NewRand(seed)
+	switch kind {
+	case "docx":
+		return officew.DOCX(r).Bytes()
+	case "odt":
+		return officew.ODT(r).Bytes()
+	case "xlsx":
+		return officew.XLSX(r).Bytes()
+	case "pptx":
+		return officew.PPTX(r).Bytes()
+	case "epub":
+		return officew.EPUB(r).Bytes()
+	}
+	return []byte(docpool.SmallHTML(r))
+}
+
 func (p *Prop) Finalise(c *sim.Case, env *sim.Env) {
 	var sp Spec
 	c.GetSpec(&sp)
 	if c.Images == nil {
 		c.Images = map[string][]byte{}
 	}
-	if sp.Other == "html" {
-		c.Images["file"] = []byte(docpool.SmallHTML(sim.NewRand(sp.OtherSeed)))
+	if sp.Other != "" {
+		c.Images["file"] = otherDoc(sp.Other, sp.OtherSeed)
 	} else {
 		c.Images["file"] = pdfw.Generate(sp.Doc).Built.Bytes
 	}
